@@ -20,7 +20,9 @@ L = ALPHA_BY_LABEL
 
 BODIES = [b'', b'.\r\n', b'..\r\n', b'x\r\n', b'QUIT\r\n', b'MAIL FROM:<evil@x.org>\r\nRCPT TO:<evil@y.org>\r\nDATA\r\n',
           b'a\nb\n', b'.\n', b'a\r\n.b\r\n\r\n..\r\n', b'no newline', b'\r\n', b'RSET\r\n.\r\nNOOP\r\n', b'\xff\x00\r\n',
-          b'Subject: s\r\n\r\nbody\r\n', b'X-Verdict: 550\r\n\r\nrejected\r\n', b'.\r', b'a\r.\r\n']
+          b'Subject: s\r\n\r\nbody\r\n', b'X-Verdict: 550\r\n\r\nrejected\r\n', b'.\r', b'a\r.\r\n',
+          # a full stop behind leading white space is content (only a line that *starts* with the full stop can end the data)
+          b' .\r\nMAIL FROM:<evil@x.org>\r\n', b'\t.\r\nQUIT\r\n', b'a\r\n  .\r\nRSET\r\n']
 
 
 def observe(segs, cfg):
